@@ -14,9 +14,16 @@ package main
 //	           authorizer's RuleAllows over a finite attribute universe.
 //	reconcile  roles.Reconciler.Reconcile (real NewReconciler, APIUpdatingApplicator,
 //	           ClusterRoleBackedValidator / VerySecureValidator, OrgDiffer,
-//	           RenderClusterRoles, DefinedResources) for 1..3 rounds under fault plans.
+//	           RenderClusterRoles, DefinedResources).
 //	xrd        definition.Reconciler.Reconcile / definition.RenderClusterRoles.
 //	binding    binding.Reconciler.Reconcile.
+//
+// A reconcile / xrd / binding scenario is a SEQUENCE of rounds driven through ONE long-lived
+// reconciler (and one long-lived validator), as Setup builds them once per process; they are
+// rebuilt only after a crash. Each round reconciles its own target (different revisions / XRDs
+// follow each other), is preceded by edits of other writers, and runs in a world (c18_world.go)
+// with other writers acting between any two of its API calls, an informer cache that lags or
+// misses on reads, and error classes injected per call. The model is run per round (per call).
 //
 // The generators and the independent monitors live in c18_gen.go / c18_mon.go.
 
@@ -41,7 +48,6 @@ import (
 	"sigs.k8s.io/controller-runtime/pkg/reconcile"
 
 	xpv1 "github.com/crossplane/crossplane-runtime/apis/common/v1"
-	"github.com/crossplane/crossplane-runtime/pkg/meta"
 
 	extv1 "github.com/crossplane/crossplane/apis/apiextensions/v1"
 	pkgv1 "github.com/crossplane/crossplane/apis/pkg/v1"
@@ -132,9 +138,46 @@ type c18Binding struct {
 	Ctrl     string       `json:"ctrl"`
 }
 
-type c18Fault struct {
-	K int    `json:"k"`
-	O string `json:"o"` // fail | conflict | crashBefore | crashAfter
+// c18Edit is one action of another writer (an administrator, another controller or replica,
+// the garbage collector): set = create or replace (new resourceVersion), del = remove.
+type c18Edit struct {
+	Op      string      `json:"op"` // setRole delRole setPR delPR setXRD delXRD setDeploy delDeploy setBinding delBinding
+	Name    string      `json:"name,omitempty"`
+	NS      string      `json:"ns,omitempty"`
+	Role    *c18Role    `json:"role,omitempty"`
+	PR      *c18PR      `json:"pr,omitempty"`
+	XRD     *c18XRD     `json:"xrd,omitempty"`
+	Deploy  *c18Deploy  `json:"deploy,omitempty"`
+	Binding *c18Binding `json:"binding,omitempty"`
+	// setRole / setBinding of an existing object: deleted and re-created (new UID) instead of
+	// edited in place (same UID, new resourceVersion)
+	Recreate bool `json:"recreate,omitempty"`
+}
+
+// c18Ev is what happens at API call K of a round.
+type c18Ev struct {
+	K int `json:"k"`
+	// "" | fail | conflict | crashBefore | crashAfter (fault plan) |
+	// notFound | alreadyExists | conflictErr | forbidden | invalid | timeout | deadline (error class; not applied)
+	O     string    `json:"o"`
+	Edits []c18Edit `json:"edits"` // other writers, right before the call
+	View  string    `json:"view"`  // a read is answered from: "" the store | "old" the store at round start | "old0" at scenario start
+	Miss  []string  `json:"miss"`  // objects the informer cache has not seen (absent from the answer of a read)
+}
+
+type c18Round struct {
+	Target string    `json:"target"`
+	Pre    []c18Edit `json:"pre"` // other writers between the previous reconcile and this one
+	Evs    []c18Ev   `json:"evs"`
+}
+
+// c18VStep is an earlier validation by the same long-lived validator: the allow-list role had
+// this content (or was gone) and these requests were validated.
+type c18VStep struct {
+	Allow    []c18PRule `json:"allow"`
+	Requests []c18PRule `json:"requests"`
+	Gone     bool       `json:"gone"`     // the allow-list role did not exist
+	Recreate bool       `json:"recreate"` // the role was deleted and re-created (new UID) rather than edited in place
 }
 
 type c18Scn struct {
@@ -147,16 +190,17 @@ type c18Scn struct {
 	PRs       []c18PR      `json:"prs"`       // sorted by name
 	XRDs      []c18XRD     `json:"xrds"`
 	Deploys   []c18Deploy  `json:"deploys"` // sorted by ns/name
-	Target    string       `json:"target"`
+	Target    string       `json:"target"`   // the revision / XRD the class is named after
 	Roles     []c18Role    `json:"roles"`    // pre-existing ClusterRoles
 	Bindings  []c18Binding `json:"bindings"` // pre-existing ClusterRoleBindings
-	Faults    [][]c18Fault `json:"faults"`   // one fault plan per round
-	// the validator is a long-lived object (built once at Setup): before the scenario proper
-	// it has already validated the same requests against an EARLIER content of the allow-list
-	// ClusterRole, which an administrator has edited in place since (RBAC objects have no
-	// generation; only the resourceVersion moves)
-	Warm      bool       `json:"warm,omitempty"`
-	WarmAllow []c18PRule `json:"warmAllow,omitempty"`
+	Rounds    []c18Round   `json:"rounds"`   // reconciles through ONE long-lived reconciler
+	// validate: the validator is a long-lived object (built once at Setup): before the
+	// validation proper it has already served these validations (RBAC objects have no
+	// generation; only the resourceVersion moves when the role is edited in place)
+	Pre []c18VStep `json:"pre"`
+	// validate: "" | "done" = the context is already done (deadline exceeded / cancelled) when the
+	// validator is called; Expand checks it on every granular rule
+	Ctx string `json:"ctx"`
 	// tree: raw rule-tree operations
 	Paths   [][]string `json:"paths"`   // node.Allow(p) in this order
 	Queries [][]string `json:"queries"` // node.Allowed(q)
@@ -171,6 +215,8 @@ type c18Obs struct {
 	Roles    []c18Role    `json:"roles"`   // final ClusterRoles, sorted by name
 	Bindings []c18Binding `json:"bindings"`
 	Allowed  []bool       `json:"allowed"` // tree: node.Allowed per query
+	PreRej   [][]c18Rule  `json:"preRej"`  // validate: rejected list of each earlier validation
+	PreErr   []bool       `json:"preErr"`
 }
 
 const (
@@ -278,7 +324,7 @@ func c18CtrlRef(s c18Scn, uid string) []metav1.OwnerReference {
 	return []metav1.OwnerReference{ref}
 }
 
-func c18SeedRole(st *Store, s c18Scn, r c18Role) {
+func c18RoleObj(s c18Scn, r c18Role) *rbacv1.ClusterRole {
 	cr := &rbacv1.ClusterRole{ObjectMeta: metav1.ObjectMeta{Name: r.Name, OwnerReferences: c18CtrlRef(s, r.Ctrl)}, Rules: c18K8sRules(r.Rules)}
 	if len(r.Labels) > 0 {
 		cr.Labels = map[string]string{}
@@ -286,71 +332,80 @@ func c18SeedRole(st *Store, s c18Scn, r c18Role) {
 			cr.Labels[kv[0]] = kv[1]
 		}
 	}
-	st.Seed(cr)
+	return cr
+}
+
+func c18SeedRole(st *Store, s c18Scn, r c18Role) { st.Seed(c18RoleObj(s, r)) }
+
+var c18Epoch = metav1.Unix(1700000000, 0)
+
+func c18TypedRef(r c18Ref) xpv1.TypedReference {
+	return xpv1.TypedReference{APIVersion: r.APIVersion, Kind: r.Kind, Name: r.Name}
+}
+
+func c18XRDObj(x c18XRD) *extv1.CompositeResourceDefinition {
+	d := &extv1.CompositeResourceDefinition{ObjectMeta: metav1.ObjectMeta{Name: x.Name, UID: types.UID(x.UID)}}
+	d.Spec.Group = x.Group
+	d.Spec.Names.Plural = x.Plural
+	d.Spec.Names.Kind = "X"
+	if x.HasClaim {
+		d.Spec.ClaimNames = &kextv1.CustomResourceDefinitionNames{Plural: x.Claim, Kind: "C"}
+	}
+	if x.Deleted {
+		now := c18Epoch
+		d.DeletionTimestamp = &now
+		d.Finalizers = []string{"verif/keep"}
+	}
+	return d
+}
+
+// c18DeployObj: the owner references are those a real cluster shows: kind ProviderRevision,
+// the NAME of the revision the UID belongs to; "<uid>-old" is an earlier incarnation of the
+// revision with that uid (same name, another UID); an unknown UID is some other revision.
+func c18DeployObj(s c18Scn, d c18Deploy) *appsv1.Deployment {
+	dep := &appsv1.Deployment{ObjectMeta: metav1.ObjectMeta{Namespace: d.NS, Name: d.Name}}
+	for _, u := range d.Owners {
+		n := "other-revision"
+		for _, p := range s.PRs {
+			if p.UID == u || p.UID+"-old" == u {
+				n = p.Name
+			}
+		}
+		dep.OwnerReferences = append(dep.OwnerReferences, metav1.OwnerReference{APIVersion: "pkg.crossplane.io/v1", Kind: "ProviderRevision", Name: n, UID: types.UID(u)})
+	}
+	dep.Spec.Template.Spec.ServiceAccountName = d.SA
+	return dep
+}
+
+func c18BindingObj(s c18Scn, b c18Binding) *rbacv1.ClusterRoleBinding {
+	crb := &rbacv1.ClusterRoleBinding{ObjectMeta: metav1.ObjectMeta{Name: b.Name, OwnerReferences: c18CtrlRef(s, b.Ctrl)},
+		RoleRef: rbacv1.RoleRef{APIGroup: rbacv1.GroupName, Kind: "ClusterRole", Name: b.RoleRef}}
+	for _, sj := range b.Subjects {
+		crb.Subjects = append(crb.Subjects, rbacv1.Subject{Kind: rbacv1.ServiceAccountKind, Namespace: sj.NS, Name: sj.Name})
+	}
+	return crb
 }
 
 func c18Store(s c18Scn) *Store {
 	st := NewStore(c18Scheme())
+	st.Namespaced[c18DeployGK] = true
 	if s.Validator == "role" || s.Kind == "validate" {
 		c18SeedRole(st, s, c18Role{Name: c18AllowName, Rules: s.Allow})
 	}
 	for _, p := range s.PRs {
-		pr := &pkgv1.ProviderRevision{ObjectMeta: metav1.ObjectMeta{Name: p.Name, UID: types.UID(p.UID)}}
-		pr.Spec.Package = p.Pkg
-		if p.Family != "" {
-			pr.Labels = map[string]string{pkgv1.LabelProviderFamily: p.Family}
-		}
-		if p.Paused {
-			pr.Annotations = map[string]string{meta.AnnotationKeyReconciliationPaused: "true"}
-		}
-		if p.Deleted {
-			now := metav1.Unix(1700000000, 0)
-			pr.DeletionTimestamp = &now
-			pr.Finalizers = []string{"verif/keep"}
-		}
-		for _, r := range p.Refs {
-			pr.Status.ObjectRefs = append(pr.Status.ObjectRefs, xpv1.TypedReference{APIVersion: r.APIVersion, Kind: r.Kind, Name: r.Name})
-		}
-		pr.Status.PermissionRequests = c18K8sRules(p.Requests)
-		if len(pr.Status.PermissionRequests) == 0 {
-			pr.Status.PermissionRequests = nil
-		}
-		st.Seed(pr)
+		st.Seed(c18PRObj(p))
 	}
 	for _, x := range s.XRDs {
-		d := &extv1.CompositeResourceDefinition{ObjectMeta: metav1.ObjectMeta{Name: x.Name, UID: types.UID(x.UID)}}
-		d.Spec.Group = x.Group
-		d.Spec.Names.Plural = x.Plural
-		d.Spec.Names.Kind = "X"
-		if x.HasClaim {
-			d.Spec.ClaimNames = &kextv1.CustomResourceDefinitionNames{Plural: x.Claim, Kind: "C"}
-		}
-		if x.Deleted {
-			now := metav1.Unix(1700000000, 0)
-			d.DeletionTimestamp = &now
-			d.Finalizers = []string{"verif/keep"}
-		}
-		st.Seed(d)
+		st.Seed(c18XRDObj(x))
 	}
 	for _, d := range s.Deploys {
-		dep := &appsv1.Deployment{ObjectMeta: metav1.ObjectMeta{Namespace: d.NS, Name: d.Name}}
-		for i, u := range d.Owners {
-			dep.OwnerReferences = append(dep.OwnerReferences, metav1.OwnerReference{APIVersion: "pkg.crossplane.io/v1", Kind: "ProviderRevision", Name: fmt.Sprintf("o%d", i), UID: types.UID(u)})
-		}
-		dep.Spec.Template.Spec.ServiceAccountName = d.SA
-		st.Namespaced[schema.GroupKind{Group: "apps", Kind: "Deployment"}] = true
-		st.Seed(dep)
+		st.Seed(c18DeployObj(s, d))
 	}
 	for _, r := range s.Roles {
 		c18SeedRole(st, s, r)
 	}
 	for _, b := range s.Bindings {
-		crb := &rbacv1.ClusterRoleBinding{ObjectMeta: metav1.ObjectMeta{Name: b.Name, OwnerReferences: c18CtrlRef(s, b.Ctrl)},
-			RoleRef: rbacv1.RoleRef{APIGroup: rbacv1.GroupName, Kind: "ClusterRole", Name: b.RoleRef}}
-		for _, sj := range b.Subjects {
-			crb.Subjects = append(crb.Subjects, rbacv1.Subject{Kind: rbacv1.ServiceAccountKind, Namespace: sj.NS, Name: sj.Name})
-		}
-		st.Seed(crb)
+		st.Seed(c18BindingObj(s, b))
 	}
 	return st
 }
@@ -411,80 +466,71 @@ func c18FinalBindings(st *Store) []c18Binding {
 	return out
 }
 
-func c18Plan(fs []c18Fault) func(CallInfo) Outcome {
-	return func(c CallInfo) Outcome {
-		for _, f := range fs {
-			if f.K == c.Index {
-				switch f.O {
-				case "fail":
-					return Fail
-				case "conflict":
-					return Conflict
-				case "crashBefore":
-					return CrashBefore
-				case "crashAfter":
-					return CrashAfter
-				}
-			}
-		}
-		return OK
-	}
-}
-
-// c18Validate runs the real validator the scenario configures against the store.
-func c18Validate(st *Store, mode string, reqs []rbacv1.PolicyRule) (rej []roles.Rule, err error, panicked string) {
-	return c18ValidateWith(roles.NewClusterRoleBackedValidator(st, c18AllowName), mode, reqs)
-}
-
 func c18ValidateWith(v *roles.ClusterRoleBackedValidator, mode string, reqs []rbacv1.PolicyRule) (rej []roles.Rule, err error, panicked string) {
+	return c18ValidateCtx(context.Background(), v, mode, reqs)
+}
+
+func c18ValidateCtx(ctx context.Context, v *roles.ClusterRoleBackedValidator, mode string, reqs []rbacv1.PolicyRule) (rej []roles.Rule, err error, panicked string) {
 	panicked = Guard(func() {
 		if mode == "none" {
-			rej, err = roles.VerySecureValidator(context.Background(), reqs...)
+			rej, err = roles.VerySecureValidator(ctx, reqs...)
 			return
 		}
-		rej, err = v.ValidatePermissionRequests(context.Background(), reqs...)
+		rej, err = v.ValidatePermissionRequests(ctx, reqs...)
 	})
 	return
 }
 
-// c18WarmUp lets the long-lived validator answer once for the earlier allow-list content,
-// then edits the ClusterRole in place to the scenario's allow-list.
-func c18WarmUp(st *Store, s c18Scn, v *roles.ClusterRoleBackedValidator, reqs []rbacv1.PolicyRule) {
-	if !s.Warm || !(s.Validator == "role" || s.Kind == "validate") {
-		return
+// c18FreshVerdict is what a FRESH validator of the tree under test says about `reqs` against the
+// allow-list content `allow` (nil = there is no allow-list role): nothing carried over from
+// earlier calls.
+func c18FreshVerdict(mode string, allow *[]c18PRule, reqs []c18PRule) (rejected int, failed bool) {
+	st := NewStore(c18Scheme())
+	if allow != nil {
+		c18SeedRole(st, c18Scn{}, c18Role{Name: c18AllowName, Rules: *allow})
 	}
-	gk := schema.GroupKind{Group: rbacv1.GroupName, Kind: "ClusterRole"}
-	set := func(rules []c18PRule) {
-		st.Mutate(gk, "", c18AllowName, func(u *unstructured.Unstructured) {
-			cr := &rbacv1.ClusterRole{}
-			_ = runtime.DefaultUnstructuredConverter.FromUnstructured(u.Object, cr)
-			cr.Rules = c18K8sRules(rules)
-			m, _ := runtime.DefaultUnstructuredConverter.ToUnstructured(cr)
-			u.Object = m
-		})
-	}
-	set(s.WarmAllow)
-	_, _, _ = c18ValidateWith(v, "role", reqs)
-	set(s.Allow)
-	st.Log = nil
+	rej, err, p := c18ValidateWith(roles.NewClusterRoleBackedValidator(st, c18AllowName), mode, c18K8sRules(reqs))
+	return len(rej), err != nil || p != ""
 }
 
-func c18Reconciler(st *Store, s c18Scn, v *roles.ClusterRoleBackedValidator) reconcile.Reconciler {
+// c18SetAllow brings the allow-list role of a validate scenario to the content of a step.
+func c18SetAllow(st *Store, rules []c18PRule, gone, recreate bool) {
+	if gone {
+		st.Remove(c18RoleGK, "", c18AllowName)
+		return
+	}
+	if recreate || st.Peek(c18RoleGK, "", c18AllowName) == nil {
+		st.Remove(c18RoleGK, "", c18AllowName)
+		c18SeedRole(st, c18Scn{}, c18Role{Name: c18AllowName, Rules: rules}) // a new object: new UID
+		return
+	}
+	st.Mutate(c18RoleGK, "", c18AllowName, func(u *unstructured.Unstructured) { // edited in place
+		cr := &rbacv1.ClusterRole{}
+		_ = runtime.DefaultUnstructuredConverter.FromUnstructured(u.Object, cr)
+		cr.Rules = c18K8sRules(rules)
+		m, _ := runtime.DefaultUnstructuredConverter.ToUnstructured(cr)
+		u.Object = m
+	})
+}
+
+// c18Controllers are the long-lived objects of the RBAC manager process.
+func c18Controllers(cl client.Client, s c18Scn) reconcile.Reconciler {
 	switch s.Kind {
 	case "xrd":
-		return definition.NewReconciler(c18Mgr{c: st})
+		return definition.NewReconciler(c18Mgr{c: cl})
 	case "binding":
-		return binding.NewReconciler(c18Mgr{c: st})
+		return binding.NewReconciler(c18Mgr{c: cl})
 	}
 	opts := []roles.ReconcilerOption{roles.WithOrgDiffer(roles.OrgDiffer{DefaultRegistry: c18DefaultRegistry})}
 	if s.Validator != "none" {
-		opts = append(opts, roles.WithPermissionRequestsValidator(v))
+		opts = append(opts, roles.WithPermissionRequestsValidator(roles.NewClusterRoleBackedValidator(cl, c18AllowName)))
 	}
-	return roles.NewReconciler(c18Mgr{c: st}, opts...)
+	return roles.NewReconciler(c18Mgr{c: cl}, opts...)
 }
 
 func c18Run(s c18Scn) (c18Obs, []Mon) {
-	obs := c18Obs{Allowed: []bool{}, Rejected: []c18Rule{}, Cov: []bool{}, Results: []string{}, Writes: [][]string{}, Roles: []c18Role{}, Bindings: []c18Binding{}}
+	obs := c18Obs{Allowed: []bool{}, Rejected: []c18Rule{}, Cov: []bool{}, Results: []string{}, Writes: [][]string{}, Roles: []c18Role{}, Bindings: []c18Binding{},
+		PreRej: [][]c18Rule{}, PreErr: []bool{}}
 	var mons []Mon
 	st := c18Store(s)
 
@@ -504,10 +550,39 @@ func c18Run(s c18Scn) (c18Obs, []Mon) {
 		return obs, mons
 	}
 
-	val := roles.NewClusterRoleBackedValidator(st, c18AllowName)
 	if s.Kind == "validate" {
-		c18WarmUp(st, s, val, c18K8sRules(s.Requests))
-		rej, err, p := c18ValidateWith(val, "role", c18K8sRules(s.Requests))
+		// ONE validator serves the earlier validations and the one the scenario is about
+		val := roles.NewClusterRoleBackedValidator(st, c18AllowName)
+		for _, step := range s.Pre {
+			c18SetAllow(st, step.Allow, step.Gone, step.Recreate)
+			rej, err, p := c18ValidateWith(val, "role", c18K8sRules(step.Requests))
+			if p != "" {
+				mons = append(mons, Mon{Sig: "C18:panic", Why: p})
+			}
+			rs := []c18Rule{}
+			for _, r := range rej {
+				rs = append(rs, c18FromRule(r))
+			}
+			obs.PreRej = append(obs.PreRej, rs)
+			obs.PreErr = append(obs.PreErr, err != nil)
+			allow := step.Allow
+			if step.Gone { // no allow-list role: nothing can be covered, whatever the validator remembers
+				allow = nil
+			}
+			mons = append(mons, c18MonValidate(c18Scn{Kind: "validate", Allow: allow, Requests: step.Requests}, rej, err)...)
+		}
+		c18SetAllow(st, s.Allow, false, false)
+		ctx := context.Background()
+		if s.Ctx == "done" {
+			c, cancel := context.WithCancel(ctx)
+			cancel()
+			ctx = c
+		}
+		mode := "role"
+		if s.Validator == "none" {
+			mode = "none"
+		}
+		rej, err, p := c18ValidateCtx(ctx, val, mode, c18K8sRules(s.Requests))
 		if p != "" {
 			mons = append(mons, Mon{Sig: "C18:panic", Why: p})
 		}
@@ -520,48 +595,53 @@ func c18Run(s c18Scn) (c18Obs, []Mon) {
 				obs.Cov = append(obs.Cov, c18Covered(c18K8sRules(s.Allow), sub))
 			}
 		}
-		mons = append(mons, c18MonValidate(s, rej, err)...)
+		ms := s
+		if s.Validator == "none" {
+			ms.Allow = nil // no allow-list: nothing is covered
+		}
+		mons = append(mons, c18MonValidate(ms, rej, err)...)
 		return obs, mons
 	}
 
-	// what the configured validator says about the target's requests on the initial
-	// store (for the reject => no-write monitor; the reconciler does not expose it)
-	var rejected []roles.Rule
-	var verr error
+	// what a fresh validator says about the target's requests on the initial store (class and
+	// correspondence only; the monitors judge each write by what its reconcile was served)
 	if s.Kind == "reconcile" {
-		for _, p := range s.PRs {
-			if p.Name == s.Target {
-				rejected, verr, _ = c18Validate(st.Clone(), s.Validator, c18K8sRules(p.Requests))
+		if t := c18Target(s); t != nil {
+			var rejected []roles.Rule
+			var verr error
+			rejected, verr, _ = c18ValidateWith(roles.NewClusterRoleBackedValidator(st.Clone(), c18AllowName), s.Validator, c18K8sRules(t.Requests))
+			for _, r := range rejected {
+				obs.Rejected = append(obs.Rejected, c18FromRule(r))
 			}
+			obs.VErr = verr != nil
 		}
-		for _, r := range rejected {
-			obs.Rejected = append(obs.Rejected, c18FromRule(r))
-		}
-		obs.VErr = verr != nil
 	}
 
-	before := c18FinalRoles(st)
-	beforeB := c18FinalBindings(st)
-	if s.Kind == "reconcile" {
-		for _, p := range s.PRs {
-			if p.Name == s.Target {
-				c18WarmUp(st, s, val, c18K8sRules(p.Requests))
-			}
+	w := &c18World{st: st, snap0: st.Clone()}
+	cl := &c18Client{Store: st, w: w}
+	rec := c18Controllers(cl, s)
+	for i, rd := range s.Rounds {
+		if st.Crashed() { // the process died: a new one starts, with new long-lived objects
+			st.Revive()
+			rec = c18Controllers(cl, s)
 		}
-	}
-	rec := c18Reconciler(st, s, val)
-	anyWrite := false
-	for _, fs := range s.Faults {
-		st.Revive()
-		st.Plan = c18Plan(fs)
-		mark := len(st.Log)
+		st.Plan, st.Before = nil, nil
+		for _, e := range rd.Pre {
+			c18ApplyEdit(st, &s, e)
+		}
+		w.snapR, w.base, w.evs, w.rec = st.Clone(), st.Calls, map[int]c18Ev{}, &c18RoundRec{Target: rd.Target}
+		for _, e := range rd.Evs {
+			w.evs[e.K] = e
+		}
+		w.install(&s)
 		var res reconcile.Result
 		var err error
 		if p := Guard(func() {
-			res, err = rec.Reconcile(context.Background(), reconcile.Request{NamespacedName: types.NamespacedName{Name: s.Target}})
+			res, err = rec.Reconcile(context.Background(), reconcile.Request{NamespacedName: types.NamespacedName{Name: rd.Target}})
 		}); p != "" {
 			mons = append(mons, Mon{Sig: "C18:panic", Why: p})
 		}
+		st.Plan, st.Before = nil, nil
 		switch {
 		case st.Crashed():
 			obs.Results = append(obs.Results, "crashed")
@@ -573,27 +653,40 @@ func c18Run(s c18Scn) (c18Obs, []Mon) {
 			obs.Results = append(obs.Results, "ok")
 		}
 		ws := []string{}
-		for _, c := range st.Log[mark:] {
-			if c.IsWrite() && c.Applied {
-				ws = append(ws, c.Verb+":"+c.Name)
-				anyWrite = true
-			}
+		for _, wr := range w.rec.Writes {
+			ws = append(ws, wr.Verb+":"+wr.Name)
 		}
 		obs.Writes = append(obs.Writes, ws)
+		var rm []Mon
+		switch s.Kind {
+		case "reconcile":
+			rm = c18MonRoundReconcile(s, w.rec)
+		case "xrd":
+			rm = c18MonRoundXRD(s, w.rec)
+		case "binding":
+			rm = c18MonRoundBinding(s, w.rec)
+		}
+		for _, m := range rm {
+			m.Why = fmt.Sprintf("round %d (target %s): %s", i, rd.Target, m.Why)
+			mons = append(mons, m)
+		}
 	}
 	st.Revive()
 	obs.Roles = c18FinalRoles(st)
 	obs.Bindings = c18FinalBindings(st)
+	return obs, c18DedupMons(mons)
+}
 
-	switch s.Kind {
-	case "reconcile":
-		mons = append(mons, c18MonReconcile(s, before, obs, rejected, verr, anyWrite)...)
-	case "xrd":
-		mons = append(mons, c18MonXRD(s, before, obs)...)
-	case "binding":
-		mons = append(mons, c18MonBinding(s, beforeB, obs)...)
+func c18DedupMons(ms []Mon) []Mon {
+	seen := map[string]bool{}
+	var out []Mon
+	for _, m := range ms {
+		if !seen[m.Sig] {
+			seen[m.Sig] = true
+			out = append(out, m)
+		}
 	}
-	return obs, mons
+	return out
 }
 
 // ---------------------------------------------------------------- registration
@@ -671,6 +764,9 @@ func c18Cls(s c18Scn, obs c18Obs) string {
 		if len(s.Allow) == 0 {
 			verdict = "empty-allow-list"
 		}
+		if obs.VErr {
+			verdict = "validator-error"
+		}
 		return "validate/" + kind + "/" + verdict + special
 	case "reconcile":
 		t := c18Target(s)
@@ -715,15 +811,15 @@ func c18Cls(s c18Scn, obs c18Obs) string {
 				fam = "alone"
 			}
 		}
-		return fmt.Sprintf("reconcile/validator=%s/%s/family=%s", s.Validator, rej, fam)
+		return fmt.Sprintf("reconcile/validator=%s/%s/family=%s/%s", s.Validator, rej, fam, c18Flags(s))
 	case "xrd":
 		if len(s.XRDs) == 0 || s.XRDs[0].Name != s.Target {
 			return "xrd/missing"
 		}
 		if s.XRDs[0].Deleted {
-			return "xrd/deleted"
+			return "xrd/deleted/" + c18Flags(s)
 		}
-		return fmt.Sprintf("xrd/claim=%t", s.XRDs[0].HasClaim)
+		return fmt.Sprintf("xrd/claim=%t/n=%d/%s", s.XRDs[0].HasClaim, len(s.XRDs), c18Flags(s))
 	case "binding":
 		t := c18Target(s)
 		if t == nil || t.Paused || t.Deleted {
@@ -737,13 +833,64 @@ func c18Cls(s c18Scn, obs c18Obs) string {
 		}
 		switch {
 		case nsub == 0:
-			return "binding/no-subjects"
+			return "binding/no-subjects/" + c18Flags(s)
 		case nsub == 1:
-			return "binding/one-subject"
+			return "binding/one-subject/" + c18Flags(s)
 		}
-		return "binding/many-subjects"
+		return "binding/many-subjects/" + c18Flags(s)
 	}
 	return "trivial/unknown-kind"
+}
+
+// c18Flags names the dimensions a scenario exercises beyond a single undisturbed reconcile.
+func c18Flags(s c18Scn) string {
+	targets := map[string]bool{}
+	interf, between, cache, class, fault := false, false, false, false, false
+	for i, rd := range s.Rounds {
+		targets[rd.Target] = true
+		if len(rd.Pre) > 0 && i > 0 {
+			between = true
+		}
+		for _, e := range rd.Evs {
+			if len(e.Edits) > 0 {
+				interf = true
+			}
+			if e.View != "" || len(e.Miss) > 0 {
+				cache = true
+			}
+			if c18IsClass(e.O) {
+				class = true
+			} else if e.O != "" {
+				fault = true
+			}
+		}
+	}
+	var fs []string
+	if len(s.Rounds) > 1 {
+		fs = append(fs, "rounds")
+	}
+	if len(targets) > 1 {
+		fs = append(fs, "targets")
+	}
+	if between {
+		fs = append(fs, "edited-between")
+	}
+	if interf {
+		fs = append(fs, "other-writer")
+	}
+	if cache {
+		fs = append(fs, "cache")
+	}
+	if class {
+		fs = append(fs, "errclass")
+	}
+	if fault {
+		fs = append(fs, "fault")
+	}
+	if len(fs) == 0 {
+		return "plain"
+	}
+	return strings.Join(fs, "+")
 }
 
 func c18ExpandLen(ps []c18PRule) int {
@@ -809,8 +956,53 @@ func c18Normalize(s *c18Scn) {
 			s.Bindings[i].Subjects = []c18Subject{}
 		}
 	}
-	if s.Faults == nil {
-		s.Faults = [][]c18Fault{}
+	if s.Rounds == nil {
+		s.Rounds = []c18Round{}
+	}
+	if s.Pre == nil {
+		s.Pre = []c18VStep{}
+	}
+	for i := range s.Pre {
+		s.Pre[i].Allow = nn(s.Pre[i].Allow)
+		s.Pre[i].Requests = nn(s.Pre[i].Requests)
+	}
+	normEdits := func(es []c18Edit) []c18Edit {
+		if es == nil {
+			return []c18Edit{}
+		}
+		for i := range es {
+			if r := es[i].Role; r != nil {
+				r.Rules = nn(r.Rules)
+				if r.Labels == nil {
+					r.Labels = []c18KV{}
+				}
+				sort.Slice(r.Labels, func(a, b int) bool { return r.Labels[a][0] < r.Labels[b][0] })
+			}
+			if p := es[i].PR; p != nil {
+				p.Requests = nn(p.Requests)
+				if p.Refs == nil {
+					p.Refs = []c18Ref{}
+				}
+				p.Org = c18ParseOrg(p.Pkg)
+			}
+			if d := es[i].Deploy; d != nil {
+				d.Owners = c18NN(d.Owners)
+			}
+			if b := es[i].Binding; b != nil && b.Subjects == nil {
+				b.Subjects = []c18Subject{}
+			}
+		}
+		return es
+	}
+	for i := range s.Rounds {
+		s.Rounds[i].Pre = normEdits(s.Rounds[i].Pre)
+		if s.Rounds[i].Evs == nil {
+			s.Rounds[i].Evs = []c18Ev{}
+		}
+		for j := range s.Rounds[i].Evs {
+			s.Rounds[i].Evs[j].Edits = normEdits(s.Rounds[i].Evs[j].Edits)
+			s.Rounds[i].Evs[j].Miss = c18NN(s.Rounds[i].Evs[j].Miss)
+		}
 	}
 	if s.Paths == nil {
 		s.Paths = [][]string{}
@@ -823,11 +1015,6 @@ func c18Normalize(s *c18Scn) {
 	}
 	for i := range s.Queries {
 		s.Queries[i] = c18NN(s.Queries[i])
-	}
-	for i := range s.Faults {
-		if s.Faults[i] == nil {
-			s.Faults[i] = []c18Fault{}
-		}
 	}
 }
 
